@@ -354,6 +354,81 @@ add('c07-benign-local-accumulator', 'C07', 'benign', [(MATH, """def xlcm(*args):
     return _xgcd(np.lcm.reduce, tuple(seen))""")])
 add('c07-benign-key-renamed-consistently', 'C07', 'benign', [(CELL, """                d['inv-data'] = set(self.outputs)""", """                d['inv-links'] = set(self.outputs)"""), (EXCEL, """                        d['inv-data'] = {out}""", """                        d['inv-links'] = {out}"""), (EXCEL, """            inp.update(nodes.get(i, {}).get('inv-data', ()))""", """            inp.update(nodes.get(i, {}).get('inv-links', ()))""")])
 
+# ---------------------------------------------------------------- C17
+TEXT = 'formulas/functions/text.py'
+TOKENS = 'formulas/tokens/__init__.py'
+add('c17-reduce-drops-collapse-value', 'C17', 'break', [(F, """        state = {
+            '_collapse_value': self._collapse_value,
+            '_default': self._default
+        },""", """        state = {
+            '_default': self._default
+        },""")], expect='C17.array')
+add('c17-deepcopy-drops-default', 'C17', 'break', [(F, """        # noinspection PyArgumentList
+        obj._default = copy.deepcopy(self._default, memo)
+""", "")], expect='C17.array')
+add('c17-new-array-attribute-unhooked', 'C17', 'break', [(F, """def value_return(res, *args):
+    res._collapse_value = Error.errors['#VALUE!']
+    return res""", """def value_return(res, *args):
+    res._collapse_value = Error.errors['#VALUE!']
+    res._origin = 'value'
+    return res"""), (F, """    _collapse_value = None
+
+    def reshape(""", """    _collapse_value = None
+    _origin = None
+
+    def reshape(""")], expect='C17.array')
+add('c17-ranges-new-attr-no-slot', 'C17', 'break', [(RANGES, """    def set_value(self, rng, value=sh.EMPTY):
+        self._value = sh.NONE""", """    def set_value(self, rng, value=sh.EMPTY):
+        self._value = sh.NONE
+        self._dirty = True""")], expect='C17.slots')
+add('c17-getstate-drops-dsp', 'C17', 'break', [(EXCEL, """        return {'dsp': self.dsp, 'cells': {}, 'books': {}}""", """        return {'cells': {}, 'books': {}}""")], expect='C17.slots')
+add('c17-token-created-in-function', 'C17', 'break', [(INFO, """def xna():
+    return Error.errors['#N/A']""", """def xna():
+    return XlError('#N/A')""")], expect='C17.tokens')
+add('c17-circular-token-in-method', 'C17', 'break', [(EXCEL, """                    dsp.set_default_value(k, ERR_CIRCULAR, dist)""", """                    dsp.set_default_value(k, XlCircular('#CIRC!'), dist)""")], expect='C17.tokens')
+add('c17-getattr-reads-attr-first', 'C17', 'break', [(TOKENS, """    def __getattr__(self, item):
+        if item.startswith('has_'):
+            return item[4:] in self.attr""", """    def __getattr__(self, item):
+        if item in self.attr:
+            return self.attr[item]
+        if item.startswith('has_'):
+            return item[4:] in self.attr""")], expect='C17.getattr')
+add('c17-getattr-returns-none', 'C17', 'break', [(TOKENS, """        return super(Token, self).__getattr__(item)""", """        return None""")], expect='C17.getattr')
+add('c17-module-cache-in-core', 'C17', 'break', [(MATH, """def xgcd(*args):
+    return _xgcd(np.gcd.reduce, args)""", """_gcd_cache = {}
+
+
+def xgcd(*args):
+    key = repr(args)
+    if key not in _gcd_cache:
+        _gcd_cache[key] = _xgcd(np.gcd.reduce, args)
+    return _gcd_cache[key]""")], expect='C17.global')
+add('c17-format-codes-not-copied', 'C17', 'break', [(TEXT, """def _format_datetime(value, codes, types):
+    codes = codes.copy()
+""", """def _format_datetime(value, codes, types):
+""")], expect='C17.global')
+add('c17-benign-new-module-token', 'C17', 'benign', [(F, """COMPILING = sh.Token('Run')""", """COMPILING = sh.Token('Run')
+PENDING = sh.Token('Pending')""")])
+add('c17-benign-attr-added-to-all-hooks', 'C17', 'benign', [(F, """    _collapse_value = None
+
+    def reshape(""", """    _collapse_value = None
+    _origin = None
+
+    def reshape("""), (F, """        state = {
+            '_collapse_value': self._collapse_value,""", """        state = {
+            '_origin': self._origin,
+            '_collapse_value': self._collapse_value,"""), (F, """        # noinspection PyArgumentList
+        obj._default = copy.deepcopy(self._default, memo)
+""", """        # noinspection PyArgumentList
+        obj._default = copy.deepcopy(self._default, memo)
+        obj._origin = self._origin
+""")])
+add('c17-benign-local-cache-dict', 'C17', 'benign', [(MATH, """def xgcd(*args):
+    return _xgcd(np.gcd.reduce, args)""", """def xgcd(*args):
+    cache = {}
+    cache['r'] = _xgcd(np.gcd.reduce, args)
+    return cache['r']""")])
+
 if __name__ == '__main__':
     here = os.path.dirname(os.path.abspath(__file__))
     ids = [v['id'] for v in V]
